@@ -14,6 +14,10 @@ void v_assume_fail(const char *msg);
 #if defined(VERIF_IR) && !defined(REPLAY)
 void __CPROVER_assert(int c, const char *msg);
 void __CPROVER_assume(int c);
+void __ll_global_ctors(void);   /* emitted by tools/ll2c.py: runs the module's static constructors */
+#define VERIF_INIT() __ll_global_ctors()
+#else
+#define VERIF_INIT() do { } while(0)
 #endif
 #ifdef __cplusplus
 }
